@@ -97,6 +97,14 @@ def cases(draw):
         attrs = draw(st.lists(st.sampled_from(pool), min_size=1, max_size=m, unique=True))
         for a in attrs:
             pairs.append([kind, a, draw(st.integers(0, 40)), draw(st.sampled_from(["hit", "hit", "hit", "miss"]))])
+    if "+" in shape and draw(st.integers(0, 3)) == 0:
+        # the same attribute asked of two kinds of object at once (name, definition, reference are
+        # attributes of Sections and of Properties; repository of Documents and Sections)
+        kinds = shape.split("+")[-2:]
+        common = [a for a in KIND_ATTRS[kinds[0]] if a in KIND_ATTRS[kinds[1]] and a != "id"]
+        if common:
+            a = draw(st.sampled_from(common))
+            pairs = [[k, a, draw(st.integers(0, 40)), "hit"] for k in kinds]
     mode = draw(st.sampled_from(["match", "match", "fuzzy"]))
     # the finder runs one query per combination: keep the number of pairs (fuzzy: attributes x terms) small
     pairs = pairs[:4] if mode == "match" else pairs[:3]
